@@ -32,11 +32,25 @@ mod c01;
 mod c17;
 mod c18;
 mod c19;
+mod c20;
 
 use std::path::PathBuf;
 
 fn main() {
     let args: Vec<String> = std::env::args().collect();
+    if args.len() >= 2 && args[1] == "hashhex" {
+        // helper for the black-box runners: BLAKE3 (real crate) of each hex-encoded line of stdin
+        use std::io::BufRead;
+        for line in std::io::stdin().lock().lines() {
+            let line = line.expect("stdin");
+            let t = line.trim();
+            let bytes: Vec<u8> = if t == "-" || t.is_empty() { Vec::new() } else {
+                (0..t.len() / 2).map(|i| u8::from_str_radix(&t[2 * i..2 * i + 2], 16).expect("hex")).collect()
+            };
+            println!("{}", blake3::hash(&bytes).to_hex());
+        }
+        return;
+    }
     if args.len() < 5 {
         eprintln!("usage: copia-corr <prop> <quick|thorough> <seed> <outdir>");
         std::process::exit(2);
@@ -55,6 +69,7 @@ fn main() {
         "C17" => c17::run(&mut w, thorough, seed),
         "C18" => c18::run(&mut w, thorough, seed),
         "C19" => c19::run(&mut w, thorough, seed, false),
+        "C20" => c20::run(&mut w, thorough, seed),
         "C15" => c19::run(&mut w, thorough, seed, true),
         other => {
             eprintln!("unknown property {other}");
